@@ -8,6 +8,11 @@ ordinary statement:
   mis-applied macros, evaluation incl. division by zero and negative values,
   layout, emission incl. out-of-range forward references) never yields a panic
   outcome other than the model's own fuel marker, for every item list;
+* `C14_terminates`, `C14_fuel_monotone`: the fuel is never the reason once it
+  exceeds `(maxMacroDepth + 2) · (opsSize ops + 2)`: with that much, `assemble`
+  reports NO panic outcome at all — macro expansion (also recursive and mutually
+  recursive macros, nested scopes) always ends, because nesting is cut off at 255
+  levels and bodies are finite; and more fuel never changes an answer;
 * `C14_literals`: literal conversion panics on no digit string the grammar can
   produce (it fails exactly on empty or non-digit strings);
 * `C14_eval_total` / bounded recursion: evaluation is a total function that gives
@@ -24,12 +29,30 @@ machine stack: recursion proportional to the nesting depth of an expression
 import EtkVerif.Asm.Refine
 import EtkVerif.Asm.ExprLemmas
 import EtkVerif.Asm.Ingest
+import EtkVerif.Asm.FuelLemmas
 namespace EtkVerif.C14
 open Asm
 
 theorem C14_assemble (rnd : Nat → Nat) (fuel k : Nat) (ops : RawOps) (site : String)
     (h : assemble rnd fuel { fresh := k } ops = .error (.panic site)) : site = "fuel" :=
   assemble_no_panic rnd fuel k ops site h
+
+/-- termination: above an explicit bound computed from the program the fuel marker cannot appear either, so the model
+of the assembler returns bytes or an error value and nothing else -/
+theorem C14_terminates (rnd : Nat → Nat) (k : Nat) (ops : RawOps) (fuel : Nat)
+    (hf : (maxMacroDepth + 2) * (opsSize ops + 2) ≤ fuel) (site : String) :
+    assemble rnd fuel { fresh := k } ops ≠ .error (.panic site) :=
+  assemble_fuel_sufficient rnd k ops fuel hf site
+
+/-- an answer that is not the fuel marker is the answer for every larger fuel -/
+theorem C14_fuel_monotone (rnd : Nat → Nat) (f : Nat) (s : St) (ops : RawOps) (r : Except AsmErr (List Nat × Nat))
+    (h : assemble rnd f s ops = r) (hr : r ≠ .error (.panic "fuel")) : assemble rnd (f + 1) s ops = r :=
+  assemble_fuel_mono rnd f s ops r h hr
+
+-- non-vacuity: the bound is a number one can compute (here 257 · 14), and a self-recursive macro evaluated with that
+-- fuel is cut off with an error value (`#eval`: `macroRecursionLimit "m"`), not with the fuel marker
+example : (maxMacroDepth + 2) * (opsSize (RawOps.ofList [.op (.instrDef "m" [] (AOps.ofList [.op 0x58 none, .macro "m" []])),
+    .op (.macro "m" [])]) + 2) = 3598 := by decide
 
 theorem C14_literals (radix : Nat) (s : List Nat) :
     (∃ v, parseRadix s radix = .ok v) ↔ (s ≠ [] ∧ ∀ c ∈ s, (toDigit radix c).isSome) :=
